@@ -314,6 +314,7 @@ const (
 	epDriverBase   = 20 // + actor index: publishes the paced changes of an episode and the change after the resume
 	epBurstBase    = 30 // + j: the distinct actors of a one-batch burst
 	epSentinelBase = 40 // + actor index: the sentinel subscriber of an episode
+	probeBase      = 60 // + n%20: publishes the n-th probe change of refute
 )
 
 type receipt struct {
@@ -371,20 +372,28 @@ type mark struct {
 type world struct {
 	sc    *Script
 	idx   int
+	seq   int64 // number of the case in this process (part of the actor ids)
 	ps    *pubsub.PubSub
 	clock atomic.Int64
 	lw    *lagWatch
 
-	mu    sync.Mutex
-	calls []*call
-	subs  []*subRec
-	marks []mark
-	notes []string
-	fail  *kit.Failure
-	ev    map[string]int
+	mu     sync.Mutex
+	calls  []*call
+	subs   []*subRec
+	marks  []mark
+	notes  []string
+	probes int
+	fail   *kit.Failure
+	ev     map[string]int
 }
 
 func (w *world) tick() int64 { return w.clock.Add(1) }
+
+// aid is the actor id of script identity i in this instance of this case
+// (unique per process, so that a line of the publisher log names one watcher).
+func (w *world) aid(i int) time.ActorID {
+	return time.ActorID{0: 0xc1, 1: 0x17, 2: byte(w.idx), 3: byte(w.seq >> 8), 4: byte(w.seq), 11: byte(i + 1)}
+}
 
 func (w *world) failf(kind, format string, a ...any) {
 	w.mu.Lock()
@@ -627,8 +636,32 @@ func (w *world) await(r *subRec, where string) {
 		}
 		if late {
 			pruned := !prunedSince.IsZero() // flagged dead by the publisher (self-prune) or otherwise out of the set
+			refuted := ""
 			if !pruned && w.lw.starved() {
 				// still subscribed: a send may have timed out because this process did not get the CPU
+				if probe := w.refute(r); probe != "" {
+					// only what was due before the probe was published counts
+					now2, _ := w.pending(r)
+					var still []*call
+					for _, c := range pend {
+						for _, d := range now2 {
+							if c == d {
+								still = append(still, c)
+							}
+						}
+					}
+					if len(still) == 0 {
+						// told in the meantime; whatever else is untold has its own cap
+						deadline = gotime.Now().Add(waitCap)
+						continue
+					}
+					pend = still
+					w.count("starved_but_no_send_timed_out")
+					refuted = fmt.Sprintf(" The process was starved of CPU during the case (a 1 ms sleeper overslept %v), but that does not explain it: the publisher logged no failed send to "+
+						"this watcher, and the watcher has received the later change %q, so the batches before it were flushed.", gotime.Duration(w.lw.max.Load()), probe)
+				}
+			}
+			if !pruned && w.lw.starved() && refuted == "" {
 				w.count("inconclusive_starved")
 				w.mu.Lock()
 				w.notes = append(w.notes, fmt.Sprintf("scripts (inconclusive, process starved: a 1 ms sleeper overslept %v): %s: subscriber actor %d, still subscribed and reading, "+
@@ -657,12 +690,57 @@ func (w *world) await(r *subRec, where string) {
 			}
 			w.failf("NEVER-TOLD", "%s: subscriber actor %d (Subscribe returned at stamp %d%s; channel still open; %s) "+
 				"was not told about Publish %q [%d,%d] by actor %d on key %d, completed %v ago or more: after stamp %d it received neither the event of that or of a later "+
-				"publish of actor %d nor two events of earlier ones (de-duplication); untold publishes: %v",
-				where, r.id, r.subExit, resumed, state, p.tag, p.entry, p.exit, p.id, p.key, waitCap, p.entry, p.id, tags)
+				"publish of actor %d nor two events of earlier ones (de-duplication); untold publishes: %v.%s",
+				where, r.id, r.subExit, resumed, state, p.tag, p.entry, p.exit, p.id, p.key, waitCap, p.entry, p.id, tags, refuted)
 			return
 		}
 		gotime.Sleep(2 * gotime.Millisecond)
 	}
+}
+
+// refute is called when a still-subscribed, reading watcher hit the cap in a
+// case during which the process was starved of CPU. By the package's
+// convention that is inconclusive: a send to the watcher may have run into the
+// 100 ms publish timeout (Subscription.Publish gives up when 100 ms pass
+// between the creation of its timer and its select, whoever is late). The
+// publisher logs every failed send, so the excuse can be checked: one more
+// change ("probe") is published under a fresh actor; if the watcher receives
+// it, every batch queued before it has been flushed to the watcher (batches
+// are flushed one after the other, events in order); if then the log has no
+// failed send to this watcher at all, no timeout explains the missing
+// notification. refute returns the tag of the probe in that case, "" when the
+// excuse stands or cannot be checked.
+func (w *world) refute(r *subRec) string {
+	if tap == nil || !tap.ok() {
+		return ""
+	}
+	w.mu.Lock()
+	w.probes++
+	n := w.probes
+	w.mu.Unlock()
+	tag := fmt.Sprintf("probe%d", n)
+	w.count("probe_after_starved_cap_hit")
+	w.publish(r.actor, -1, "pub", probeBase+n%20, r.key, tag)
+	deadline := gotime.Now().Add(waitCap)
+	for got := false; !got; {
+		if r.closedSeen() || gotime.Now().After(deadline) {
+			return ""
+		}
+		r.mu.Lock()
+		for _, rc := range r.receipts {
+			if rc.tag == tag {
+				got = true
+			}
+		}
+		r.mu.Unlock()
+		if !got {
+			gotime.Sleep(2 * gotime.Millisecond)
+		}
+	}
+	if !tap.barrier(waitCap) || tap.timeoutsOf(w.aid(r.id)) > 0 {
+		return ""
+	}
+	return tag
 }
 
 type actorState struct {
@@ -691,7 +769,7 @@ func (w *world) subscribe(ai, si, id, k, mode int, sentinel bool) *subRec {
 		r.slow = 25 * gotime.Millisecond
 	}
 	c := w.begin(ai, si, "sub", k, id, r, "")
-	sub, _, err := w.ps.Subscribe(context.Background(), actorID(id), docKey(w.idx, k), w.sc.Limit)
+	sub, _, err := w.ps.Subscribe(context.Background(), w.aid(id), docKey(w.idx, k), w.sc.Limit)
 	if err != nil {
 		w.end(c, "rejected")
 		if w.sc.Limit > 0 && errors.Is(err, pubsub.ErrTooManySubscribers) {
@@ -737,7 +815,7 @@ func (w *world) publish(ai, si int, op string, id, k int, tag string) *call {
 		typ = events.DocWatched
 	}
 	c := w.begin(ai, si, op, k, id, nil, tag)
-	w.ps.Publish(context.Background(), actorID(id), events.DocEvent{Type: typ, Key: docKey(w.idx, k), Actor: actorID(id),
+	w.ps.Publish(context.Background(), w.aid(id), events.DocEvent{Type: typ, Key: docKey(w.idx, k), Actor: w.aid(id),
 		Body: events.DocEventBody{Topic: tag}})
 	w.end(c, "")
 	return c
@@ -1168,11 +1246,12 @@ func evalScript(sc Script) outcome {
 		defer pubsub.SetDefaultMaxConsecutivePublishFailures(prev)
 	}
 	nw := max(1, sc.Worlds)
+	seq := caseSeq.Add(1)
 	lw := startLagWatch()
 	worlds := make([]*world, nw)
 	var wg sync.WaitGroup
 	for i := range worlds {
-		worlds[i] = &world{sc: &sc, idx: i, ps: pubsub.New(), lw: lw, ev: map[string]int{}}
+		worlds[i] = &world{sc: &sc, idx: i, seq: seq, ps: pubsub.New(), lw: lw, ev: map[string]int{}}
 		wg.Add(1)
 		go func(w *world) {
 			defer wg.Done()
